@@ -111,9 +111,9 @@ pub fn len_strategy(tier: Tier, max_quick: usize, max_thorough: usize) -> BoxedS
     }
 }
 
-pub const ALL_CLASSES: &[u8] = &[0, 1, 2, 3, 4, 5, 6, 7, 8, 9, 11];
+pub const ALL_CLASSES: &[u8] = &[0, 1, 2, 3, 4, 5, 6, 7, 8, 9, 11, 12];
 /// tie-heavy classes for the extrema / rank family
-pub const TIE_CLASSES: &[u8] = &[0, 10, 1, 4, 5, 5, 6, 6, 8, 2];
+pub const TIE_CLASSES: &[u8] = &[0, 10, 1, 4, 5, 5, 6, 6, 8, 2, 11];
 
 pub fn raw_series(len: impl Strategy<Value = usize> + 'static) -> impl Strategy<Value = RawSeries> {
     raw_series_of(len, ALL_CLASSES)
@@ -144,6 +144,7 @@ pub fn class_name(class: u8) -> &'static str {
         8 => "tiny_alphabet",
         10 => "ulp_neighbours",
         11 => "medium_int",
+        12 => "scale_shift",
         _ => "small_int",
     }
 }
@@ -163,6 +164,9 @@ pub fn values_of(rs: &RawSeries, integer: bool, f32ok: bool) -> (Vec<f64>, &'sta
     }
     if class == 10 && (integer || f32ok) {
         class = 0;
+    }
+    if class == 12 && (integer || f32ok) {
+        class = 1;
     }
     if class == 11 && f32ok {
         // f32 inputs are kept to values whose sums are exact in f32 (the library accumulates some
@@ -185,6 +189,20 @@ pub fn values_of(rs: &RawSeries, integer: bool, f32ok: bool) -> (Vec<f64>, &'sta
         2 => {
             for (a, _) in &rs.raw {
                 out.push((a % 8193) as f64 / 8.0);
+            }
+        },
+        12 => {
+            // regime changes: the magnitude of the data changes by orders of magnitude from one segment
+            // to the next (starting tiny), e.g. a non-constant stretch whose variance is below the 1e-14
+            // floor followed by ordinary data
+            const SEG: [f64; 6] = [1e-8, 1e-7, 1e-6, 1e-5, 1e-3, 1.0];
+            let mut k = (rs.cparam % 2) as usize;
+            let change = 12 + (rs.cparam / 2 % 24);
+            for (i, (a, r)) in rs.raw.iter().enumerate() {
+                if i > 0 && *r < change {
+                    k = (k + 1 + (a.rem_euclid(2)) as usize) % SEG.len();
+                }
+                out.push(*a as f64 / RAW_MAX as f64 * SEG[k]);
             }
         },
         11 => {
